@@ -16,6 +16,20 @@ Definition pred_fn (loc : N) (p : pred) (t : tok) : bool :=
   | PLoc l => match tok_mac t with Some m => m_loc m =? l | None => false end
   end.
 
+(* filters (not predicates: they look at the whole token list): Bundle.IsMissingDischarge, AllowsAccess,
+   Bundle.WithDischarges(f) = the tokens f selects and the discharges of the permission tokens it selects *)
+Inductive filt := FPred (p : pred) | FMissing (tp : N) | FAllows (rqs : list N) | FWithDis (f : filt).
+Fixpoint filt_fn (ct : ctable) (loc : N) (ts : list tok) (f : filt) (t : tok) : bool :=
+  match f with
+  | FPred p => pred_fn loc p t
+  | FMissing tp => missing_for loc ts tp t
+  | FAllows rqs => allows ct rqs t
+  | FWithDis g => filt_fn ct loc ts g t ||
+                  existsb (fun p => discharges_perm loc p t && filt_fn ct loc ts g p) ts
+  end.
+Definition select_f (ct : ctable) (b : bundle) (f : filt) : bundle :=
+  mkB (b_loc b) (filter (filt_fn ct (b_loc b) (b_ts b) f) (b_ts b)).
+
 (* ---- VerificationCache: LRU (most recent first) of successful results *)
 Record centry := mkCE { ce_key : list N; ce_cs : N }.
 Record cache := mkCache { c_cap : nat; c_live : bool (* ttl > 0: entries never expire within a scenario; else always expired *);
@@ -95,6 +109,12 @@ Inductive bop :=
 | BDischarge (b tp : N) (key_ok : bool) (first : N)
 | BClone (dst b : N)
 | BUndischarged (b : N)
+| BSelectF (dst b : N) (f : filt)           (* Select with a Filter that is not a Predicate *)
+| BFilterF (b : N) (f : filt)
+| BCountF (b : N) (f : filt)                (* Count and Any *)
+| BIsEmpty (b : N)
+| BError (b : N)                            (* Error() != nil *)
+| CPurge (f : N)
 | CNew (f : N) (live : bool) (cap : nat).
 
 Record tables := mkTab { t_v : vtable; t_c : ctable; t_a : atable; t_cs : cstable }.
@@ -154,6 +174,25 @@ Definition bstep (T : tables) (σ : bst) (o : bop) : bst * list Z :=
   | BUndischarged b => match blookup b (bs σ) with
                        | Some bb => (σ, zl (undischarged_for bb 1) ++ zl (undischarged_for bb 2))
                        | None => (σ, []) end
+  | BSelectF dst b f => match blookup b (bs σ) with
+                        | Some bb => (setb dst (select_f (t_c T) bb f), [])
+                        | None => (σ, []) end
+  | BFilterF b f => match blookup b (bs σ) with
+                    | Some bb => (setb b (select_f (t_c T) bb f), [])
+                    | None => (σ, []) end
+  | BCountF b f => match blookup b (bs σ) with
+                   | Some bb => let n := List.length (b_ts (select_f (t_c T) bb f)) in
+                                (σ, [Z.of_nat n; b2z (negb (Nat.eqb n 0))])
+                   | None => (σ, []) end
+  | BIsEmpty b => match blookup b (bs σ) with
+                  | Some bb => (σ, [b2z (match b_ts bb with [] => true | _ => false end)])
+                  | None => (σ, []) end
+  | BError b => match blookup b (bs σ) with
+                | Some bb => (σ, [b2z (existsb is_bad (b_ts bb))])
+                | None => (σ, []) end
+  | CPurge f => match blookup f (cs_ σ) with
+                | Some c => (mkBst (bs σ) (bput f (mkCache (c_cap c) (c_live c) []) (cs_ σ)), [])
+                | None => (σ, []) end
   | CNew f live cap => (mkBst (bs σ) (bput f (mkCache cap live []) (cs_ σ)), [])
   end.
 
